@@ -28,6 +28,11 @@ ChkD(e, prop, clause, cond, detail) ==
     IF Has(e, prop) THEN (IF cond THEN TRUE ELSE PrintT(<< "REJECT", e.id, prop, clause, detail >>)) ELSE TRUE
 \* a premise the DRIVER must establish; its failure is a machinery failure, never a verdict
 Premise(e, clause, cond) == IF cond THEN TRUE ELSE PrintT(<< "REJECT", e.id, "MACHINERY", clause >>)
+\* a precondition that rests on what the LIBRARY produced (e.g. "the bytes the encoder made are a valid frame", needed to
+\* judge the DECODER on their prefixes): when it does not hold the event says nothing about the property at hand and is
+\* skipped -- counted in the evidence, never a verdict and never a machinery failure (the encoder's defect is for the
+\* checks of the encoder's properties to report)
+Skip(e, clause) == PrintT(<< "SKIP", e.id, clause >>)
 
 \* what the wire format cannot represent (a short string of more than 255 octets ...) is refused, never emitted: the
 \* driver marks such inputs (unrep), the reference must agree that it has no encoding for them (a premise), and the
@@ -421,13 +426,14 @@ CutSet(e) ==
         bad2 == { i \in 1..n : e.cuts[i].r = "exc" /\ ~CutOk(e.cuts[i]) }
         bad3 == { i \in 1..n : e.cuts[i].r = "ok" /\ e.cuts[i].n > e.cuts[i].k }
     IN
-    /\ Premise(e, "cutset_of_a_valid_frame", full.k = "frame" /\ full.n = Len(b)
-                                            /\ \A i \in 1..n : e.cuts[i].k >= 0 /\ e.cuts[i].k < Len(b))
-    /\ ChkD(e, "C07", "prefix_never_yields_a_frame", bad1 = {}, IF bad1 = {} THEN -1 ELSE e.cuts[CHOOSE i \in bad1 : TRUE].k)
-    /\ ChkD(e, "C07", "prefix_raises_only_UnmarshalingException", bad2 = {},
-            IF bad2 = {} THEN -1 ELSE e.cuts[CHOOSE i \in bad2 : TRUE].k)
-    /\ ChkD(e, "C07", "never_consumes_more_than_supplied", bad3 = {}, IF bad3 = {} THEN -1 ELSE e.cuts[CHOOSE i \in bad3 : TRUE].k)
-    /\ Chk(e, "C07", "complete_frame_is_returned", e.full.r = "ok" /\ e.full.n = Len(b))
+    /\ Premise(e, "cuts_are_strict_prefixes", \A i \in 1..n : e.cuts[i].k >= 0 /\ e.cuts[i].k < Len(b))
+    /\ IF ~(full.k = "frame" /\ full.n = Len(b)) THEN Skip(e, "the_encoder_did_not_produce_one_valid_frame")
+       ELSE
+       /\ ChkD(e, "C07", "prefix_never_yields_a_frame", bad1 = {}, IF bad1 = {} THEN -1 ELSE e.cuts[CHOOSE i \in bad1 : TRUE].k)
+       /\ ChkD(e, "C07", "prefix_raises_only_UnmarshalingException", bad2 = {},
+               IF bad2 = {} THEN -1 ELSE e.cuts[CHOOSE i \in bad2 : TRUE].k)
+       /\ ChkD(e, "C07", "never_consumes_more_than_supplied", bad3 = {}, IF bad3 = {} THEN -1 ELSE e.cuts[CHOOSE i \in bad3 : TRUE].k)
+       /\ Chk(e, "C07", "complete_frame_is_returned", e.full.r = "ok" /\ e.full.n = Len(b))
     /\ UNCHANGED st
 
 \* header peek (C20)
@@ -518,14 +524,18 @@ Observe(e) ==
     /\ UNCHANGED st
 
 \* ---- the byte stream between a sender and a receiver (Stream.tla; C06, C07, C20) ----
-StreamReset(e) == st' = [st EXCEPT !.wire = <<>>, !.buf = <<>>, !.sent = <<>>, !.got = 0, !.used = 0]
+StreamReset(e) == st' = [st EXCEPT !.wire = <<>>, !.buf = <<>>, !.sent = <<>>, !.got = 0, !.used = 0, !.void = FALSE]
 
+\* (a session in which the ENCODER failed to produce a valid frame says nothing about the receiver: void until the next reset)
 SendEv(e) ==
     LET r == IF e.out.r = "ok" THEN Unmarshal(e.out.b) ELSE Malformed IN
-    /\ Premise(e, "sent_frame_is_a_valid_frame", e.out.r = "ok" /\ r.k = "frame" /\ r.n = Len(e.out.b))
-    /\ st' = [st EXCEPT !.wire = @ \o e.out.b, !.sent = Append(@, e.out.b)]
+    IF st.void THEN UNCHANGED st
+    ELSE IF ~(e.out.r = "ok" /\ r.k = "frame" /\ r.n = Len(e.out.b))
+    THEN Skip(e, "the_encoder_did_not_produce_one_valid_frame") /\ st' = [st EXCEPT !.void = TRUE]
+    ELSE st' = [st EXCEPT !.wire = @ \o e.out.b, !.sent = Append(@, e.out.b)]
 
 DeliverEv(e) ==
+    IF st.void THEN UNCHANGED st ELSE
     /\ Premise(e, "deliver_within_wire", e.k >= 1 /\ e.k <= Len(st.wire))
     /\ Chk(e, "C06", "receiver_buffer_length", e.buflen = Len(st.buf) + e.k)
     /\ Chk(e, "C20", "receiver_buffer_length", e.buflen = Len(st.buf) + e.k)
@@ -548,12 +558,14 @@ DecodeStep(e, prop, b) ==
          /\ st' = [st EXCEPT !.buf = IF o.r = "ok" THEN Drop(@, o.n) ELSE @]
 
 TryDecodeEv(e) ==
+    IF st.void THEN UNCHANGED st ELSE
     /\ Chk(e, "C06", "receiver_buffer_length", e.buflen = Len(st.buf))
     /\ DecodeStep(e, "C06", st.buf)
 
 \* size-reading receiver: frame_parts, then exactly size + 8 bytes
 PeekReadEv(e) ==
     LET p == FrameParts(st.buf) IN
+    IF st.void THEN UNCHANGED st ELSE
     /\ Chk(e, "C20", "receiver_buffer_length", e.buflen = Len(st.buf))
     /\ IF Take(st.buf, 4) = AMQPLit THEN DecodeStep(e, "C20", st.buf)
        ELSE IF ~p.ok THEN
@@ -565,6 +577,7 @@ PeekReadEv(e) ==
                ELSE DecodeStep(e, "C20", Take(st.buf, need))
 
 Quiesce(e) ==
+    IF st.void THEN UNCHANGED st ELSE
     /\ Premise(e, "everything_was_delivered", st.wire = <<>>)
     /\ Chk(e, "C06", "all_frames_received_buffer_empty", st.got = Len(st.sent) /\ st.buf = <<>> /\ e.buflen = 0 /\ e.got = st.got)
     /\ Chk(e, "C20", "all_frames_received_buffer_empty", st.got = Len(st.sent) /\ st.buf = <<>> /\ e.buflen = 0 /\ e.got = st.got)
@@ -596,12 +609,15 @@ ConnReset(e) == st' = [st EXCEPT !.conn = ConnInit]
 ConnFrame(e) ==
     LET got == ConnEv(e, e.wire)
         want == ConnEv(e.want, e.mlen)
+        nominal == ConnEv(e.want, IF e.want.kind = "body" THEN e.want.size + 8 ELSE 8)
         scripted == e.want.kind # "none"
         same == scripted /\ got.dir = want.dir /\ got.ch = want.ch /\ got.kind = want.kind /\ got.name = want.name
                 /\ got.size = want.size /\ got.fm = want.fm /\ got.cm = want.cm
         known == e.kind = "method" /\ e.name \in MethodNames
     IN
-    /\ Premise(e, "scripted_frame_is_legal", ~scripted \/ ConnLegal(st.conn, want))
+    \* (the legality of the SCRIPT is the generator's business and is decided with nominal lengths; lengths measured on
+    \* what the library marshalled enter the clauses below)
+    /\ Premise(e, "scripted_frame_is_legal", ~scripted \/ ConnLegal(st.conn, nominal))
     \* the frame the peer decoded is the frame that was marshalled (round trip through a byte stream cut anywhere)
     /\ Chk(e, "C01", "session_frame_survives", want.kind = "method" => same)
     /\ Chk(e, "C02", "session_frame_survives", want.kind = "header" => same)
@@ -616,7 +632,7 @@ ConnFrame(e) ==
     \* the metadata a client drives the machine with
     /\ Chk(e, "C14", "session_metadata", e.kind = "method" =>
              (known /\ e.sync = Waits(e.name) /\ { e.resp[i] : i \in 1..Len(e.resp) } = Resp(e.name)))
-    /\ st' = [st EXCEPT !.conn = IF scripted /\ ConnLegal(@, want) THEN ConnStep(@, want) ELSE @]
+    /\ st' = [st EXCEPT !.conn = IF scripted /\ ConnLegal(@, nominal) THEN ConnStep(@, nominal) ELSE @]
 ConnQuiesce(e) ==
     /\ Chk(e, "C06", "session_all_frames_received", e.left = 0 /\ e.inflight = 0)
     /\ Chk(e, "C18", "session_all_frames_received", e.left = 0 /\ e.inflight = 0)
@@ -789,7 +805,7 @@ Step == /\ l <= Len(Events)
              [] e.a = "ConnQuiesce" -> ConnQuiesce(e)
 
 Init == /\ l = 1
-        /\ st = [legacy |-> FALSE, tz |-> "UTC", wire |-> <<>>, buf |-> <<>>, sent |-> <<>>, got |-> 0, used |-> 0,
+        /\ st = [legacy |-> FALSE, tz |-> "UTC", void |-> FALSE, wire |-> <<>>, buf |-> <<>>, sent |-> <<>>, got |-> 0, used |-> 0,
                   heap |-> HeapInit, rpc |-> [c \in 0..7 |-> ""], conn |-> ConnInit,
                   asm |-> [c \in 0..7 |-> Idle], cdel |-> [c \in 0..7 |-> <<>>], cpub |-> [c \in 0..7 |-> <<>>]]
 Spec == Init /\ [][Step]_vars
